@@ -82,6 +82,7 @@ func WorkerMain() {
 		}
 	}
 	debug.SetMaxStack(256 << 20)
+	debug.SetGCPercent(1000) // small live heap, many short-lived allocations per execution
 
 	w := &worker{syncCh: make(chan int, 64), rcFiles: map[string]string{}, out: json.NewEncoder(outf), watchSecs: 60}
 	if s := os.Getenv("VERIF_WATCHDOG"); s != "" {
@@ -124,7 +125,9 @@ func WorkerMain() {
 			}
 			fatalf("decode job: %v", err)
 		}
+		st := time.Now()
 		tr := w.runJob(&job)
+		tr.Micros = time.Since(st).Microseconds()
 		w.send(tr)
 	}
 }
@@ -234,7 +237,8 @@ func (w *worker) watchdog() {
 		buf2 = buf2[:runtime.Stack(buf2, true)]
 		cls2 := classifyHang(string(buf2))
 		if cls != cls2 {
-			cls = cls + " | " + cls2
+			// blocked in one sample and running in the other: keep the first, note both
+			cls = cls + "|" + cls2
 		}
 		w.send(&Trace{ID: job, Calls: []Call{{Outcome: "hung", Site: cls, Stack: trimStack(string(buf), 6000)}}})
 		os.Exit(3)
@@ -256,24 +260,41 @@ func classifyHang(all string) string {
 			}
 		}
 		fn := ""
+		var funcs []string
 		for _, l := range lines[1:] {
 			if strings.HasPrefix(l, "\t") {
 				continue
 			}
+			funcs = append(funcs, l)
+		}
+		clean := func(f string) string {
+			if k := strings.LastIndex(f, "("); k > 0 {
+				f = f[:k]
+			}
+			f = strings.TrimSuffix(f, "-fm")
+			return strings.TrimPrefix(f, "github.com/reeflective/readline")
+		}
+		for _, l := range funcs {
 			if strings.Contains(l, "reeflective/readline") {
-				fn = l
-				if k := strings.LastIndex(fn, "("); k > 0 {
-					fn = fn[:k]
-				}
-				fn = strings.TrimPrefix(fn, "github.com/reeflective/readline")
+				fn = clean(l)
 				break
 			}
 		}
-		kind := "deadlock"
-		if state == "running" || state == "runnable" {
-			kind = "spin"
+		// for spins the sampled innermost frame varies: name the command instead
+		// (the callee of Shell.execute), which is stable
+		cmd := ""
+		for i, l := range funcs {
+			if strings.Contains(l, "readline.(*Shell).execute(") && i > 0 {
+				cmd = clean(funcs[i-1])
+			}
 		}
-		return fmt.Sprintf("%s[%s]@%s", kind, state, fn)
+		if state == "running" || state == "runnable" {
+			if cmd != "" {
+				fn = cmd
+			}
+			return fmt.Sprintf("spin@%s", fn)
+		}
+		return fmt.Sprintf("deadlock[%s]@%s", state, fn)
 	}
 	return "unknown"
 }
